@@ -49,8 +49,9 @@ def tasks(tier):
     ts.append(("axisymmetric", "run_axi", {}))
     ts.append(("axisymmetric blocks", "run_axi_blocks", {}))
     ts.append(("parallel", "run_parallel", {}))
-    ts.append(("expression api", "run_expression", dict(tier=tier)))
-    ts.append(("thread discipline", "run_threads", {}))
+    # the Form expression API (O9) and the thread-discipline lint (O8.ii) are added by c02_expr when built
+    from . import c02_expr
+    ts.extend(c02_expr.tasks(tier))
     return ts
 
 
